@@ -362,14 +362,16 @@ impl Range {
     Parse a range from a string.
     */
     pub fn parse<S: AsRef<str>>(input: S) -> Result<Self, SemverError> {
-        let mut input = input.as_ref();
+        // the parsers advance `input`; errors report against the whole text
+        let original = input.as_ref();
+        let mut input = original;
 
         match range_set.parse_next(&mut input) {
             Ok(range) => Ok(range),
             Err(err) => Err(match err {
                 ErrMode::Backtrack(e) | ErrMode::Cut(e) => SemverError {
-                    input: input.into(),
-                    span: (e.input.as_ptr() as usize - input.as_ptr() as usize, 0).into(),
+                    input: original.into(),
+                    span: (e.input.as_ptr() as usize - original.as_ptr() as usize, 0).into(),
                     kind: if let Some(kind) = e.kind {
                         kind
                     } else if let Some(ctx) = e.context {
@@ -379,8 +381,8 @@ impl Range {
                     },
                 },
                 ErrMode::Incomplete(_) => SemverError {
-                    input: input.into(),
-                    span: (input.len() - 1, 0).into(),
+                    input: original.into(),
+                    span: (original.len() - 1, 0).into(),
                     kind: SemverErrorKind::IncompleteInput,
                 },
             }),
